@@ -182,6 +182,8 @@ class PollHandler(Handler):
             # moving a value out of an object place (e.g. `move (*slot)`): leave as is (Option::take is the modelled way)
             return st
         new = it.proj_write(base, path[1:], val) if len(path) > 1 else val
+        if st.get(("g", "inflight")) == name and isinstance(val, tuple) and val[:3] == ("var", OPT, "Some"):
+            st = st.delete(("g", "inflight"))
         return st.set(("o", name), new)
 
     def on_overwrite(self, it, st, loc, old, new, bb, span):
@@ -350,6 +352,8 @@ class PollHandler(Handler):
             st = it.write_loc(st, loc, NONE)
             if loc[0] == "O" and len(loc[1]) == 1:
                 self.routing.add(("take", loc[1][0], self.token_of(v)))
+                if loc[1][0] in self.cfg.data_slots and loc[1][0] in self.cfg.send_requires_empty.values() and known and v[2] == "Some":
+                    st = st.set(("g", "inflight"), loc[1][0])      # a message is now held in a local: it must be sent or put back
             return [(v if known else TOP, st, None)]
         if name in ("insert", "replace", "get_or_insert") and loc is not None and len(args) > 1:
             old = v
@@ -397,6 +401,10 @@ class PollHandler(Handler):
         pname = ".".join(str(p) if not isinstance(p, tuple) else p[1] for p in path)
         st = self.touch(st, path)
         out = []
+        infl = st.get(("g", "inflight"))
+        if infl is not None:
+            self.report(it, "K13", "message-dropped:%s" % infl, "a message taken out of `%s` was neither handed to a sink nor put back before the router moved on: it is silently lost" % infl, call.span)
+            st = st.delete(("g", "inflight"))
         ended = st.get(("g", "ended"))
         if ended is not None:
             sv = st.get(("o", ended))
@@ -481,6 +489,7 @@ class PollHandler(Handler):
                             "start_send on `%s` without a preceding poll_ready that returned Ready(Ok) (Sink contract)" % pname, call.span)
             tok = self.token_of(args[1]) if len(args) > 1 else "?"
             self.routing.add(("send", pname, tok))
+            st = st.delete(("g", "inflight"))
             slot = self.cfg.send_requires_empty.get(pname)
             if slot is not None:
                 sv = st.get(("o", slot))
@@ -706,6 +715,16 @@ class Explorer:
                     if isinstance(v, tuple) and v and v[0] == "sinkset" and v[1] and name in self.cfg.consumer_sinks_names():
                         h.report(it, "K7", "finished-unflushed:%s" % name, "the router finishes with unflushed data in `%s`" % name, span)
             return
+        if val[:3] == ("var", POLL, "Ready"):
+            # the router finishes (its registration channel is closed): whatever it had accepted must have been handed over and flushed
+            span = self.cfg.body.term(bb).get("span", "")
+            for s in self.cfg.final_empty:
+                v = objs.get(s)
+                if isinstance(v, tuple) and v[:3] == ("var", OPT, "Some"):
+                    h.report(it, "K7", "finished-with-buffered:%s" % s, "the router finishes while `%s` still holds an accepted message (it is dropped)" % s, span)
+            for name, v in objs.items():
+                if isinstance(v, tuple) and v and v[0] == "sinkset" and v[1] and name in self.cfg.consumer_sinks_names():
+                    h.report(it, "K7", "finished-unflushed:%s" % name, "the router finishes with unflushed data in `%s`" % name, span)
         self.check_return(it, h, st, objs, val, bb)
 
     @property
@@ -742,6 +761,9 @@ class Explorer:
 
     # -- K4 / K5 at returns --------------------------------------------------------------------------------
     def check_return(self, it, h, st, objs, val, bb):
+        infl = st.get(("g", "inflight"))
+        if infl is not None:
+            h.report(it, "K13", "message-dropped:%s" % infl, "a message taken out of `%s` was neither handed to a sink nor put back before poll returned: it is silently lost" % infl, self.cfg.body.term(bb).get("span", ""))
         if val[:3] != ("var", POLL, "Pending"):
             return
         lp = st.get(("g", "lastpend"))
